@@ -10,7 +10,7 @@
 From Coq Require Import NArith ZArith List Lia.
 Import ListNotations.
 From Mds Require Import Mdiff.Decimal Mdiff.ReaderModel Mdiff.FormatSpec Mdiff.ApplySpec Mdiff.FormatInst
-  Mdiff.ReaderNormalProofs Mdiff.ApplyNormalProofs Mdiff.ReaderUnifiedProofs Mdiff.ApplyUnifiedProofs
+  Mdiff.ReaderNormalProofs Mdiff.ApplyNormalProofs Mdiff.ReaderUnifiedProofs Mdiff.ApplyUnifiedProofs Mdiff.ApplyContextProofs Mdiff.ReaderGitProofs
   Mdiff.FormatRefuted.
 Local Open Scope Z_scope.
 
@@ -193,3 +193,67 @@ Theorem C14_apply_refuted :
     apply_unified L (split_lines (x_unified pinned None cs)) <> Some R.
 Proof. exact apply_refuted. Qed.
 Print Assumptions C14_apply_refuted.
+
+(* ---- context format (holds on the code as it stands) ----
+   The hunks Context writes (no file header), read by the rules of the context format - an omitted
+   section is reconstructed from the context lines of the other, "s,s-1" is the empty range
+   before line s - turn Left into Right, for chunk lists whose commands have lines and whose
+   chunks change something ([context_ok]). *)
+Theorem C14_context_apply :
+  forall (time : Type) (time_is_zero : time -> bool) (format_time : time -> bytes)
+         (L R : list line) (cs : list (chunk line)),
+    patch_ok L R cs -> context_ok cs -> lines_nf cs ->
+    apply_context L (split_lines (context time_is_zero format_time None cs)) = Some R.
+Proof. exact apply_context_text. Qed.
+Print Assumptions C14_context_apply.
+Example C14_context_apply_ex :
+  context_ok ex_cs /\ apply_context ex_L (split_lines (x_context None ex_cs)) = Some ex_R
+  /\ apply_context [[97]%N] (split_lines (x_context None f6_cs)) = Some [[98]; [97]]%N.
+Proof.
+  split; [|vm_compute; auto].
+  repeat (apply Forall_cons || apply Forall_nil || split); cbn; try reflexivity; discriminate.
+Qed.
+
+(* ---- git-style wrappers ----
+   A text made of a preamble (no line starts with "diff "), then for each file a "diff ..." line,
+   further header lines (none starts with "--- ") and the Unified rendering with its file header
+   ([item_lines]) is read by ReadGitPatch as one patch per file: header and normalised chunks;
+   everything else is skipped.  Full statement under the repaired switches. *)
+Theorem C14_git_wrappers :
+  forall (time : Type) (zero_time : time) (time_is_zero : time -> bool)
+         (format_time : time -> bytes) (parse_time : bytes -> option time),
+    (forall t, time_is_zero t = false -> parse_time (format_time t) = Some t) ->
+    (forall t, time_is_zero t = true -> t = zero_time) ->
+  forall (pre : list line) (its : list (git_item time)),
+    Forall (fun l => has_prefix s_diff l = false) pre ->
+    Forall (item_ok time repaired) its -> its <> [] ->
+    read_git_lines time zero_time parse_time repaired
+      (pre ++ flat_map (item_lines time time_is_zero format_time repaired) its)
+    = ROk (map (item_patch time) its).
+Proof. intros time z iz fmt prs H1 H2. exact (read_git_lines_wrapped time z iz fmt prs H1 H2 repaired). Qed.
+Print Assumptions C14_git_wrappers.
+
+(* on the code as it stands: the same for files whose hunks have no one-line side (item_ok
+   pinned demands [readable pinned], i.e. Forall no_one_line_side).  Missing: one-line sides (F5). *)
+Theorem C14_git_wrappers_partial :
+  forall (time : Type) (zero_time : time) (time_is_zero : time -> bool)
+         (format_time : time -> bytes) (parse_time : bytes -> option time),
+    (forall t, time_is_zero t = false -> parse_time (format_time t) = Some t) ->
+    (forall t, time_is_zero t = true -> t = zero_time) ->
+  forall (pre : list line) (its : list (git_item time)),
+    Forall (fun l => has_prefix s_diff l = false) pre ->
+    Forall (item_ok time pinned) its -> its <> [] ->
+    read_git_lines time zero_time parse_time pinned
+      (pre ++ flat_map (item_lines time time_is_zero format_time pinned) its)
+    = ROk (map (item_patch time) its).
+Proof. intros time z iz fmt prs H1 H2. exact (read_git_lines_wrapped time z iz fmt prs H1 H2 pinned). Qed.
+Print Assumptions C14_git_wrappers_partial.
+Example C14_git_wrappers_ex :
+  x_read_git repaired
+    (join_lines ([[99; 111; 109; 109; 105; 116]%N; [100; 105; 102; 102; 32; 120]%N; [105; 110; 100; 101; 120]%N]
+                 ++ split_lines (x_unified repaired (Some (mkFileInfo [120]%N [121]%N [] [])) f5_cs)
+                 ++ [[100; 105; 102; 102; 32; 122]%N]
+                 ++ split_lines (x_unified repaired (Some (mkFileInfo [122]%N [122]%N [] [])) f6_cs)))
+  = ROk [mkPatch (Some (mkFileInfo [120]%N [121]%N [] [])) (unified_normalise f5_cs);
+         mkPatch (Some (mkFileInfo [122]%N [122]%N [] [])) f6_cs].
+Proof. vm_compute. reflexivity. Qed.
